@@ -725,6 +725,18 @@ def r26_17(ctx, rep):
     no_reused_iterators(ctx, rep, "R26.17", CLI, "the compiler tool", 3)
 
 
+@SPEC.rule(
+    "R26.18",
+    "a model's outcome does not depend on the models requested before it: flatten works on copies of what it looks up in the library tree "
+    "(the ownership analysis of R05.1 evaluated for this property) — a class flattened in place is found already rewritten by the next "
+    "request that uses it, which then fails, or succeeds, for another reason than when requested alone",
+)
+def r26_18(ctx, rep):
+    from ..engine import run_as
+    from .c05 import r05_1
+    run_as(r05_1, "R26.18", ctx, rep)
+
+
 # -- seeded variants ---------------------------------------------------------
 from ._mut import delete_stmt_where, replace_in_func  # noqa: E402
 
